@@ -123,8 +123,18 @@ def run(ctx: Ctx) -> None:
             k = ctx.rng.randint(1, max(1, nres))
             fs = S.flight_server() if mode == "mp" else None
             flight_pid = S._flight.flight_server_process.pid if S._flight is not None and S._flight.flight_server_process else None
-            res = consume(sess, mode, behaviour, k, fs)
+            fin, res = S.guarded(lambda: consume(sess, mode, behaviour, k, fs), 60)
+            if not fin:  # did not end: repeat once; a hang that reproduces is reported, one that does not is a fork/thread flake
+                S.kill_stray_children()
+                S.FLAKES["hangs_retried"] += 1
+                fin, res = S.guarded(lambda: consume(sess, mode, behaviour, k, fs), 60)
             history.append([mode, behaviour, k])
+            if not fin:
+                S.kill_stray_children()
+                ctx.violation("stream", {"spec": spec, "history": list(history)}, f"streamed run ({behaviour}) did not end within 60 s, twice", "timeout", "return or raise")
+                break
+            if isinstance(res, BaseException):
+                raise res
             got = S.tables_canon(res["items"], sort_rows=linked)
             case = {"spec": spec, "history": list(history)}
             fclass = "threading-overlapping-steps-on-shared-cfw" if (mode == "thread" and S.overlap_on_shared_fw(exp, res["events"])) else None
